@@ -95,6 +95,24 @@ Example C10_every_multiword_keyword_long_runs :
       inner_ok (KMulti (snd alt)) (map (fun _ => repeat 32%Z 300 ++ repeat 10%Z 300) (fst alt))) (snd e)) multi_table = true.
 Proof. vm_compute. reflexivity. Qed.
 
+(* ---- comment CONTENT is not restricted: [wf_layout] asks of a comment text only that it contains no LF / CR
+   (Layout.sep_elem_ok; likewise for the last comment without line break), so C10_lex_render already quantifies
+   over comments made of arbitrary bytes - `[`, `]#`, `#[`, quotes, braces, backslashes, NUL, keywords,
+   multi-byte sequences, any length.  The lexer's comment rule on its own: a `#` comment with ANY such text is
+   layout, in front of any program and at the end of the input *)
+Theorem C10_comment_text_is_layout :
+  forall v ts l body nl,
+  forallb tk_ok ts = true -> wf_layout ts l = true -> separating ts l = true ->
+  forallb (fun b => negb (is_nl b)) body = true -> is_nl nl = true ->
+  lex_view v (35%Z :: body ++ nl :: render ts l) = Some (map tk_tok ts).
+Proof. exact comment_text_is_layout. Qed.
+Print Assumptions C10_comment_text_is_layout.
+
+Theorem C10_comment_to_end_of_input :
+  forall v body, forallb (fun b => negb (is_nl b)) body = true -> lex_view v (35%Z :: body) = Some [].
+Proof. exact comment_to_end_of_input. Qed.
+Print Assumptions C10_comment_to_end_of_input.
+
 (* ================================================================== round 2: the parser half
    theories/Parser.v (token-level transcription of src/syntax/parser.rs, tied to the code by the PARSER
    correspondence which this check runs as an extra stream).  Statements as in Properties/PARSER.v. *)
